@@ -150,6 +150,70 @@ func ruleBinWidth(c *Ctx, r *Rep, tier string) {
 						}
 					}
 				}
+				// x[lo:] behind a comparison of lo+k with len(x): len(x) − lo ≥ w
+				if sl, isSl := arg.(*ssa.Slice); isSl && how == "" && sl.High == nil && sl.Low != nil {
+					lo := polyOf(sl.Low, nil)
+					for _, b := range f.Blocks {
+						iff := ifOf(b)
+						if iff == nil || b.Succs[0] == b.Succs[1] {
+							continue
+						}
+						bo, ok := iff.Cond.(*ssa.BinOp)
+						if !ok {
+							continue
+						}
+						isLenX := func(v ssa.Value) bool {
+							a, ok := isLenCall(v)
+							return ok && sameExpr(a, sl.X, 0)
+						}
+						// (edge, strict) on which `A < len(x)` (strict) or `A ≤ len(x)` holds
+						var A ssa.Value
+						edge, strict := -1, false
+						switch {
+						case isLenX(bo.Y):
+							A = bo.X
+							switch bo.Op {
+							case token.LSS:
+								edge, strict = 0, true
+							case token.LEQ:
+								edge, strict = 0, false
+							case token.GEQ:
+								edge, strict = 1, true
+							case token.GTR:
+								edge, strict = 1, false
+							}
+						case isLenX(bo.X):
+							A = bo.Y
+							switch bo.Op {
+							case token.GTR:
+								edge, strict = 0, true
+							case token.GEQ:
+								edge, strict = 0, false
+							case token.LEQ:
+								edge, strict = 1, true
+							case token.LSS:
+								edge, strict = 1, false
+							}
+						}
+						if edge < 0 || !dominatedByEdge(f, b, edge, call.Block()) {
+							continue
+						}
+						d := polyOf(A, nil).add(lo, -1)
+						if len(d) > 1 {
+							continue
+						}
+						k, isConst := d[""]
+						if len(d) == 1 && !isConst {
+							continue
+						}
+						if strict {
+							k++
+						}
+						if k >= w {
+							how = fmt.Sprintf("the rest of the slice holds at least %d bytes (bound compared with the length)", k)
+						}
+					}
+				}
 				if h, isCall := arg.(*ssa.Call); isCall && how == "" {
 					g := staticCallee(&h.Call)
 					np, conds, ok := sliceHelper(g)
